@@ -4,6 +4,7 @@ import (
 	"context"
 	"errors"
 	"fmt"
+	"math"
 	"math/rand"
 	"strings"
 	"sync"
@@ -925,6 +926,11 @@ func (d *dealer) syncCall(caller *wamp.Session, msg *wamp.Call) {
 	// The error message that is returned to the Caller MUST use
 	// wamp.error.timeout as the reason URI.
 	if timeout > 0 {
+		// A timeout that does not fit into a time.Duration must not wrap
+		// around into a short or negative one.
+		const maxTimeout = int64(math.MaxInt64 / int64(time.Millisecond))
+		timeout = min(timeout, maxTimeout)
+
 		// Timer removed if context canceled, call cancelled if timeout.
 		var timerCtx context.Context
 		timerCtx, invk.timerCancel = context.WithTimeout(context.Background(),
